@@ -82,6 +82,13 @@ def tasks(tier, seed):
     # runs that do not start at time zero (and end before it): records keyed by end times must carry the true ones
     T.append(('hist', 2, 1, 3, False, True, [], {'shrink': False, 't0': -1.0}))
     T.append(('hist', 1, 1, 2, True, False, [], {'shrink': False, 't0': -0.125}))
+    # several runs on ONE controller with the shipped recording hooks loaded: the statistics a run returns are those of a fresh controller doing that
+    # run (no records of earlier runs, no stale counters) -- the scenarios 'lengths' (runs of 2, 3, 2, 1, 2 steps) and 'same' of C19 with these hooks
+    names = ['log_work:LogWork', 'log_work:LogSDCIterations', 'log_solution:LogSolution', 'log_step_size:LogStepSize', 'log_errors:LogGlobalErrorPostStep', 'log_errors:LogGlobalErrorPostRun']
+    base_ = dict(dt=0.25, prob='dahlquist', n=1, qd='LU', sweeper='generic_implicit', maxiter=1, restol=-1.0, blocks=1, hook_names=names)
+    T.append(('rerun', 'lengths', dict(base_, M=[2], NP=3, jac=False)))
+    T.append(('rerun', 'lengths', dict(base_, M=[2, 1], NP=2)))
+    T.append(('rerun', 'same', dict(base_, M=[2], NP=2, blocks=2)))
     if not quick:
         T.append(('hist', 3, 1, 4, True, True, [], {'shrink': True, 't0': -2.0}))
         T.append(('hist', 2, 2, 3, False, False, [], {'shrink': False, 't0': 1.5}))
@@ -99,6 +106,13 @@ def run_task(rep, task):
         types_case(rep, task[1])
     elif task[0] == 'hookreg':
         hookreg_case(rep)
+    elif task[0] == 'rerun':
+        from harness import c19
+        from symx import pysdc as sp_
+
+        sp_.install_shadows()
+        c19.PID = PID  # (the scenario machinery of C19, reporting under this property)
+        c19.scenario_case(rep, task[1], dict(task[2]))
     elif task[0] == 'filter_close':
         filter_close_case(rep)
     elif task[0] == 'ctrl':
